@@ -32,7 +32,7 @@ RULE = ("seeded world loop (chunked delivery, drops, bursts, outages sized lifes
 RECURSIVE = {"EMA", "RMA", "OBV", "VWAP", "ATR", "TR", "RSI", "MACD", "TSI", "ADX", "KC", "Supertrend", "Counter"}
 WINDOW_FULL = {"SMA", "ROC", "StandardDeviation", "BBANDS", "StandardDeviationThreshold", "AROON", "HighestLowest"}
 WINDOW_M1 = {"WMA", "VWMA", "HMA", "Donchian"}
-MARGIN = 2
+MARGIN = 0   # was 2 while the table was being validated; the look-backs below are exact
 
 
 def lookback(spec):
